@@ -505,6 +505,9 @@ func check(c Case) *Failure {
 				return nil
 			}
 		}
+		if (g == "Gamma" || g == "Lgamma") && (x == 0 || (x < 0 && x == math.Trunc(x))) {
+			return nil // poles: the sign of the infinity depends on the side, the second formula does not know it
+		}
 		at := c.TC
 		for _, t := range c.TT {
 			if types[t].Base == BF32 {
